@@ -60,20 +60,38 @@ fn parse_float(significant: u64, exponent: i32, negative: bool, trunc: bool, raw
     requires *old(index) <= data@.len(), data@.len() <= 0x3fff_ffff_ffff_ffff,
     ensures
         res.is_ok() <==> exp_end(data@, *old(index) as int).is_some(),
-        res.is_ok() ==> *final(index) == exp_end(data@, *old(index) as int).unwrap() && -1000000 < res.unwrap() < 1000000,
+        res.is_ok() ==> *final(index) == exp_end(data@, *old(index) as int).unwrap() && -1_000_000_010 < res.unwrap() < 1_000_000_010,
         *old(index) <= *final(index) <= data@.len(),
+        // the value (found F27): the exponent's own digits, exactly, as long as they stay below the saturation point
+        // 10^8 — far above any input length, because the caller ADDS the number of digits it dropped from (or zeros it
+        // skipped before) the significand, which grows with the input; beyond it only the magnitude class is kept
+        res.is_ok() ==> ({
+            let q = if at(data@, *old(index) as int, 0x2d) || at(data@, *old(index) as int, 0x2b) { *old(index) + 1 } else { *old(index) as int };
+            let v = dec_val(data@, q, digits_end(data@, q));
+            let neg = at(data@, *old(index) as int, 0x2d);
+            &&& (v < 100_000_000 ==> res.unwrap() == (if neg { -v } else { v }))
+            &&& (v >= 100_000_000 ==> (if neg { res.unwrap() <= -100_000_000 } else { res.unwrap() >= 100_000_000 }))
+        }),
 //@before /check_digit!\(data, \*index\);/
     let ghost q1 = *index as int;
-    proof { lemma_digits_end_bounds(data@, q1); }
+    proof { lemma_digits_end_bounds(data@, q1); reveal_with_fuel(dec_val, 2); }
 //@loop 1
-        invariant q1 <= *index <= data@.len(), 0 <= exponent < 10010,
+        invariant q1 <= *index <= data@.len(), 0 <= exponent < 1_000_000_010,
             forall|j: int| q1 <= j < *index ==> is_digit(#[trigger] data@[j]),
             data@.len() <= 0x3fff_ffff_ffff_ffff,
+            exponent == dec_val(data@, q1, *index as int),
         decreases data@.len() - *index,
 //@loop 2
-        invariant q1 <= *index <= data@.len(), 0 <= exponent < 10010,
+        invariant q1 <= *index <= data@.len(), 0 <= exponent < 1_000_000_010,
             forall|j: int| q1 <= j < *index ==> is_digit(#[trigger] data@[j]),
+            0 <= q1,
+            (exponent == dec_val(data@, q1, *index as int) && !dig_at(data@, *index as int)) || (exponent >= 100_000_000 && dec_val(data@, q1, *index as int) >= 100_000_000),
         decreases data@.len() - *index,
+//@after /^\s+\*index \+= 1;/ #3
+        proof {
+            reveal_with_fuel(dec_val, 2);
+            lemma_dec_val_bound(data@, q1, *index as int - 1);
+        }
 //@before /if negative \{/
     proof { lemma_digits_run(data@, q1, *index - q1); }
 //@end
